@@ -2,7 +2,8 @@
    for every role table, from every well-formed state, an actor object (other than the two system actors) whose mailbox
    is suspended and has no user message in flight — the situation right after a failure: ReportAbnormal / a panic
    suspends the mailbox within the failing step, and the pop at the end of that step takes no user message from a
-   suspended mailbox — stays in that situation through every step whose observations show none of the three events
+   suspended mailbox — and for whose address no resume request (an earlier Resume decision not yet applied) is pending,
+   stays in that situation through every step whose observations show none of the three events
    that legitimately lift the suspension (a supervisor applying Resume to its address, the completion of its restart,
    the start of its termination). While it lasts, a run of that mailbox can only process system messages, so no user
    message is handed to the actor; its queued user messages wait, in order (Kernel.Queue). *)
@@ -48,12 +49,13 @@ Lemma pop1_susp' a : a_susp (pop1 a) = a_susp a.
 Proof. unfold pop1. destruct (a_inflight a); [reflexivity|]. destruct (a_sysq a); [|reflexivity]. destruct (a_susp a) eqn:E; [exact E|]. destruct (a_userq a); [exact E|cbn [a_susp w_inflight w_userq]; exact E]. Qed.
 
 Theorem no_user_step s l s' o u a :
-  RI s -> get s u = Some a -> is_sys (a_tok a) = false -> waiting (a_tok a) a ->
+  RI s -> get s u = Some a -> is_sys (a_tok a) = false -> waiting (a_tok a) a -> nrp (a_tok a) s ->
   kstep roles s l = Some (s', o) -> marker (a_tok a) o = false ->
-  exists a', get s' u = Some a' /\ waiting (a_tok a) a'.
+  (exists a', get s' u = Some a' /\ waiting (a_tok a) a') /\ nrp (a_tok a) s'.
 Proof.
-  intros HR Ha Hsys (_ & Hsu & Hin) Hk Hm.
-  destruct (suspension_lifted_only_by_directive roles s l s' o u a HR Ha Hsys Hsu Hk) as [(a' & G' & T' & S')|M]; [|congruence].
+  intros HR Ha Hsys (_ & Hsu & Hin) HN Hk Hm.
+  destruct (suspension_lifted_only_by_directive roles s l s' o u a HR Ha Hsys Hsu HN Hk) as [[(a' & G' & T' & S') N']|M]; [|congruence].
+  split; [|exact N'].
   exists a'. split; [exact G'|]. split; [exact T'|]. split; [exact S'|].
   destruct (kstep_pre _ _ _ _ Hk) as [[-> _]|(s1 & -> & P)].
   - rewrite Ha in G'. inversion G'; subst. exact Hin.
@@ -87,18 +89,18 @@ Qed.
 
 (* over any run without a marker for the address: the actor is still waiting at the end, hence at every step in between *)
 Theorem no_user_run ls : forall s s' os u a,
-  RI s -> get s u = Some a -> is_sys (a_tok a) = false -> waiting (a_tok a) a ->
+  RI s -> get s u = Some a -> is_sys (a_tok a) = false -> waiting (a_tok a) a -> nrp (a_tok a) s ->
   krun roles s ls = Some (s', os) -> (forall o, In o os -> marker (a_tok a) o = false) ->
   exists a', get s' u = Some a' /\ waiting (a_tok a) a'.
 Proof.
-  induction ls as [|l rest IH]; intros s s' os u a HR Ha Hsys Hw; cbn [krun].
+  induction ls as [|l rest IH]; intros s s' os u a HR Ha Hsys Hw HN; cbn [krun].
   - intros H _; inversion H; subst. exists a. auto.
   - destruct (kstep roles s l) as [[s1 o]|] eqn:E; [|discriminate].
     destruct (krun roles s1 rest) as [[s2 os2]|] eqn:E2; [|discriminate]. intros H Hm; inversion H; subst.
-    destruct (no_user_step _ _ _ _ _ _ HR Ha Hsys Hw E (Hm o (or_introl eq_refl))) as (a1 & G1 & W1).
+    destruct (no_user_step _ _ _ _ _ _ HR Ha Hsys Hw HN E (Hm o (or_introl eq_refl))) as [(a1 & G1 & W1) N1].
     pose proof W1 as (T1 & _).
     assert (R1 : RI s1) by (eapply RI_ext; [exact HR|eapply kstep_ext; exact E]).
-    rewrite <- T1 in *. destruct (IH s1 s' os2 u a1 R1 G1 Hsys W1 E2) as (a2 & G2 & W2).
+    rewrite <- T1 in *. destruct (IH s1 s' os2 u a1 R1 G1 Hsys W1 N1 E2) as (a2 & G2 & W2).
     + intros o' Ho'. apply Hm. right. exact Ho'.
     + exists a2. auto.
 Qed.
